@@ -133,6 +133,14 @@ func init() {
 			[]Stmt{book, tbl("t", typed(it, "a", "b")...), tbl("fresh", typed(it, "f")...)}})
 	}
 	pairWitnesses = append(pairWitnesses,
+		// C01-h: an inline key column that changes while PRIMARY KEY is not the last option of its definition
+		witness{"w-key-column-retyped-key-not-last", my,
+			[]Stmt{tbl("account", col("id", "int(11)", oPk, Opt{Kind: "comment", Val: "account id"}), col("name", "varchar(64)"))},
+			[]Stmt{tbl("account", col("id", "bigint(20)", oPk, Opt{Kind: "comment", Val: "account id"}), col("name", "varchar(64)"))}},
+		witness{"w-key-column-reoptioned-key-first", my,
+			[]Stmt{tbl("account", col("id", "int(11)", oPk, oNotNull), col("name", "varchar(64)"))},
+			[]Stmt{tbl("account", col("id", "int(11)", oPk, oNotNull, Opt{Kind: "autoinc"}), col("name", "varchar(64)"))}})
+	pairWitnesses = append(pairWitnesses,
 		// a column retyped by ALTER COLUMN … TYPE on the new side only: the diff must carry the new type
 		witness{"w-pg-alter-column-type-new-side", pg,
 			[]Stmt{tbl("t", col("a", "INT8"), col("b", "VARCHAR(64)"))},
@@ -223,6 +231,9 @@ var scriptWitnesses = []scriptWitness{
 	{"w-pg-alter-column-type-later-call", pg, []Stmt{tbl("t", col("a", "INT8"), col("b", "VARCHAR(64)")), idx("t", "ib", false, "b"), {Kind: "addColumn", T: "t", Col: col("c", "INT4"), Pos: "none"},
 		{Kind: "alterType", T: "t", A: "c", B: "INT8"}, {Kind: "alterType", T: "t", A: "a", B: "INT4"}}},
 	{"w-pg-drop-not-null", pg, []Stmt{tbl("t", col("a", "INT8"), col("b", "VARCHAR(64)")), {Kind: "dropNotNull", T: "t", A: "b"}}},
+	// C05-h: a renamed column (its record has the action `rename`), then DROP NOT NULL on it
+	{"w-pg-rename-then-drop-not-null", pg, []Stmt{tbl("t", col("a", "INT8"), col("heading", "VARCHAR(64)")), {Kind: "renameColumn", T: "t", A: "heading", B: "title"},
+		{Kind: "dropNotNull", T: "t", A: "title"}, {Kind: "alterType", T: "t", A: "a", B: "INT4"}}},
 	{"w-pg-add-column-then-index", pg, []Stmt{tbl("a", typed("INT8", "id")...), tbl("b", typed("INT8", "id", "k")...), {Kind: "addColumn", T: "a", Col: col("n", "INT8"), Pos: "none"}, idx("b", "idx_b_k", false, "k")}},
 	// C05-c / C09-a / C09-b: two indexes, the first dropped, then the second named again; a column with its own index dropped
 	{"w-drop-first-index-then-rename-second", my, []Stmt{tbl("t", ints("a", "b", "c")...), idx("t", "i1", false, "a"), idx("t", "i2", false, "b"), {Kind: "dropIndex", T: "t", A: "i1"}, {Kind: "renameIndex", T: "t", A: "i2", B: "j2"}}},
